@@ -4,7 +4,7 @@
 
    line   : hist MODE HOSTIP HOSTMAC ROUTERIP ROUTERMAC HOMEIP HOMEBITS NFIP NFBITS DNS op op ...
    op     : D|R|X|L,chaddr,xid,ciaddr,cid,req,sid,b,src,prl   (X decline, L release)
-            C,mac   U,mac   T,seconds
+            C,mac   U,mac   T,seconds   E,clientid,seconds (lease expiry rewritten through the verif hook)
    cid    : ~ absent, - empty, else hex;   req/sid : ~ absent, else 8 hex;   prl : - or hex
    Handler ops run at now = 0 (the harness leaves the real clock alone; a lease
    lasts 4 h), T gives MinuteTicker's argument in seconds relative to that clock. *)
@@ -55,6 +55,14 @@ Definition parse_op (s : string) : option op :=
       else if String.eqb k "L" then option_map ORelease (parse_msg f)
       else if String.eqb k "C" then match f with [m] => option_map OCapture (N_of_hex m) | _ => None end
       else if String.eqb k "U" then match f with [m] => option_map OUncapture (N_of_hex m) | _ => None end
+      else if String.eqb k "E" then
+        match f with
+        | [i; t] => match bytes_of_tok i, Z_of_dec t with
+                    | Some b, Some z => Some (OSetExp (cid_of_bytes b) z)
+                    | _, _ => None
+                    end
+        | _ => None
+        end
       else if String.eqb k "T" then match f with [t] => option_map OTick (Z_of_dec t) | _ => None end
       else None
   | [] => None
